@@ -3,6 +3,7 @@ package seq
 import (
 	"fmt"
 	"math"
+	"strings"
 	"testing"
 
 	age "github.com/craterdog/go-collection-framework/v4/agent"
@@ -183,8 +184,8 @@ type snapCase struct {
 }
 
 var kindMutations = map[string][]string{
-	"Array":   {"SetValue", "SetValues", "SortDesc", "Reverse", "Shuffle"},
-	"List":    {"SetValue", "SetValues", "SortDesc", "Reverse", "Shuffle", "InsertFront", "Append", "RemoveFirst", "RemoveLast", "RemoveRange", "RemoveAll"},
+	"Array":   {"SetValue", "SetValues", "SortDesc", "Reverse", "Shuffle", "SourceSetValue", "SourceReverse"},
+	"List":    {"SetValue", "SetValues", "SortDesc", "Reverse", "Shuffle", "InsertFront", "Append", "RemoveFirst", "RemoveLast", "RemoveRange", "RemoveAll", "SourceSetValue", "SourceReverse"},
 	"Set":     {"AddSmall", "AddLarge", "RemoveFirst", "RemoveLast", "RemoveAll"},
 	"Stack":   {"Push", "Pop", "RemoveAll"},
 	"Queue":   {"Add", "RemoveHead", "RemoveAll"},
@@ -291,12 +292,21 @@ func execSnapCase(c snapCase, _ core.Source) (res core.Result) {
 			col.Sortable[int]
 			col.Updatable[int]
 		}
+		// the collection is made from a collection of the other kind, which stays a collection of its own:
+		// the "Source..." mutations change that source in place and must not reach what the iterators show
+		var source interface {
+			col.Sequential[int]
+			col.Sortable[int]
+			col.Updatable[int]
+		}
 		if c.Kind == "Array" {
-			arr = col.Array[int](n).MakeFromArray(vals)
-			common = arr
+			src := col.List[int](n).MakeFromArray(vals)
+			arr = col.Array[int](n).MakeFromSequence(src)
+			common, source = arr, src
 		} else {
-			list = col.List[int](n).MakeFromArray(vals)
-			common = list
+			src := col.Array[int](n).MakeFromArray(vals)
+			list = col.List[int](n).MakeFromSequence(src)
+			common, source = list, src
 		}
 		newIter = func() (func() (snapItem, bool), func() (snapItem, bool), func() int, any) {
 			return wrapInt(common.GetIterator())
@@ -315,6 +325,13 @@ func execSnapCase(c snapCase, _ core.Source) (res core.Result) {
 				if size > 0 {
 					common.SetValues(1, col.List[int](n).MakeFromArray([]int{fresh}))
 				}
+			case "SourceSetValue":
+				if source.GetSize() > 0 {
+					source.SetValue(1, fresh)
+					source.SetValue(-1, fresh+500)
+				}
+			case "SourceReverse":
+				source.ReverseValues()
 			case "SortDesc":
 				common.SortValuesWithRanker(desc(""))
 			case "Reverse":
@@ -649,6 +666,14 @@ func execSnapCase(c snapCase, _ core.Source) (res core.Result) {
 				break
 			}
 			walked = append(walked, x)
+		}
+		onlySource := len(c.Mutations) > 0
+		for _, m := range c.Mutations {
+			onlySource = onlySource && strings.HasPrefix(m, "Source")
+		}
+		if onlySource && !same(now, snapshot) {
+			res.Violation = core.Violate("C17/collection-follows-its-source/"+c.Kind, "%s made from a collection of another kind: after that source was changed in place (%v) the %s holds %s, it held %s", c.Kind, c.Mutations, c.Kind, show(now), show(snapshot))
+			return
 		}
 		if freshSize() != len(now) || !same(walked, now) {
 			res.Violation = core.Violate("C17/fresh-iterator-is-stale/"+c.Kind, "%s after %v: an iterator obtained now yields %s, the collection holds %s", c.Kind, c.Mutations, show(walked), show(now))
